@@ -28,6 +28,13 @@ def chunk_fields(s):
     return set(x[2] for x in s.sources if x[0] == "field" and strip_generics(x[1]).endswith("SnapshotChunk"))
 
 
+# creation-side functions that write the archive directly at final_snapshot_path, each triaged by hand (one line of reason);
+# any OTHER function that does so is reported
+CREATION_SIDE_TRIAGED = {
+    "DefaultStateMachineHandler::create_snapshot": "findings/F17d: receivers validate and reject a truncated archive before apply_snapshot_from_file; sender-side availability only",
+}
+
+
 def run(ctx):
     F = ctx.F
     ps = ctx.anchor(F.method, "DefaultStateMachineHandler", "process_snapshot_stream")
@@ -164,7 +171,7 @@ def run(ctx):
                                 if any(x[0] == "param" and x[1] == ai + 1 for x in hs):
                                     creators.append((ci, "%s -> %s" % (fkey(tg), hk.split("::")[-1])))
         n_ren += len(renames)
-        if root not in receiver_fns and creators:
+        if root not in receiver_fns and creators and fkey(root) in CREATION_SIDE_TRIAGED:
             # creation side (the property is about transfers): triaged - a truncated archive under the final name is rejected by
             # every receiver before apply_snapshot_from_file (findings/F17d), so this is a sender-side availability issue, not a
             # violation of the all-or-nothing transfer property
